@@ -306,3 +306,75 @@ def slot_products():
             for fn, f in INDEX_FILLERS.items():
                 src = _place(s.replace("I", f), pl)
                 yield "C02:index:%s:%s:%s" % (pl, sn, fn), src
+
+
+# scripts that PARSE but that CPython refuses to COMPILE: conversion must either refuse them or
+# still return one well-formed expression (it used to return text that is not an expression)
+COMPILE_REFUSED = {
+    "return_star": "def f():\n    return *a\n",
+    "for_iter_star": "for x in *a:\n    pass\n",
+    "assign_debug": "__debug__ = 1\n",
+    "walrus_debug": "(__debug__ := 1)\n",
+    "aug_debug": "__debug__ += 1\n",
+    "ann_debug": "__debug__: int = 1\n",
+    "tuple_debug": "x, __debug__ = 1, 2\n",
+    "for_debug": "for __debug__ in x:\n    pass\n",
+    "param_debug": "def f(__debug__):\n    pass\n",
+    "kwarg_debug": "f(__debug__=1)\n",
+    "import_debug": "import __debug__\n",
+    "import_as_debug": "import a as __debug__\n",
+    "class_debug": "class __debug__:\n    pass\n",
+    "def_debug": "def __debug__():\n    pass\n",
+    "attr_debug": "a.__debug__ = 1\n",
+    "lambda_debug": "f = lambda __debug__: 1\n",
+    "comp_debug": "x = [1 for __debug__ in y]\n",
+    "repeated_keyword": "f(a=1, a=2)\n",
+    "future_late": "x = 1\nfrom __future__ import annotations\n",
+    "future_in_def": "def f():\n    from __future__ import division\n",
+    "comp_bare_star_target": "x = [1 for *a in y]\n",
+    "star_stmt_target": "*a = x\n",
+    "for_bare_star_target": "for *a in x:\n    pass\n",
+    "nonlocal_module": "nonlocal x\n",
+    "nonlocal_unbound": "def f():\n    nonlocal x\n",
+    "global_after_use": "def f():\n    print(x)\n    global x\n",
+    "global_after_assign": "def f():\n    x = 1\n    global x\n",
+    "global_and_nonlocal": "def f():\n    x = 1\n    def g():\n        global x\n        nonlocal x\n",
+    "param_global": "def f(x):\n    global x\n",
+    "duplicate_param": "def f(a, a):\n    pass\n",
+    "yield_in_class": "class A:\n    yield 1\n",
+    "return_in_class_in_def": "def f():\n    class A:\n        return 1\n",
+    "walrus_rebinds_comp_var": "x = [(i := 1) for i in y]\n",
+    "walrus_in_class_comp": "class A:\n    x = [(j := i) for i in y]\n",
+    "walrus_in_comp_iterable": "x = [i for i in (j := y)]\n",
+    "await_outside_async": "def f():\n    await x\n",
+    "async_comp_outside_async": "def f():\n    return [i async for i in y]\n",
+    "break_in_finally_free": "while c:\n    def f():\n        break\n",
+    "del_call": "del f()\n",
+    "assign_to_call": "f() = 1\n",
+    "assign_to_literal": "1 = x\n",
+    "aug_to_tuple": "(a, b) += 1\n",
+    "ann_to_tuple": "(a, b): int = 1, 2\n",
+    "starred_in_index_assign": "x[*a] = 1\n" if False else "x = *a\n",
+    "dict_unpack_in_call_order": "f(**a, *b)\n",
+    "positional_after_keyword": "f(a=1, 2)\n",
+    "none_assign": "None = 1\n",
+    "lambda_default_order": "f = lambda a=1, b: 0\n",
+}
+
+
+def compile_refused():
+    """(descriptor, source) of those entries that ast.parse accepts and compile() refuses on this
+    interpreter (the others are not part of the obligation here)"""
+    import ast
+
+    for k, src in COMPILE_REFUSED.items():
+        try:
+            ast.parse(src)
+        except SyntaxError:
+            continue
+        try:
+            compile(src, "<s>", "exec")
+            continue
+        except SyntaxError:
+            pass
+        yield "C02:compile-refused:" + k, src
